@@ -70,6 +70,8 @@ def node_src(n):
         lines.append('    tags = (NodeTag.thread,)')
     elif mode == 'custom_tag':
         lines.append("    tags = ('io_bound',)")
+    elif n.get('explicit_tags'):
+        lines.append('    tags = ()')
     r = n.get('retry')
     if r:
         if r.get('attempts') is not None:
